@@ -227,9 +227,10 @@ def merge(results):
         m["max_work"] = max(m["max_work"], r.get("max_work") or 0)
         m["outcomes"].update(r.get("outcomes") or [])
         for g in r.get("violations") or []:
-            t = m["violations"].setdefault(g["signature"], {"signature": g["signature"], "count": 0, "what": g["what"], "replays": []})
+            t = m["violations"].setdefault(g["signature"], {"signature": g["signature"], "count": 0, "what": g["what"], "replays": [], "shards": []})
             t["count"] += g["count"]
             t["replays"] += g["replays"]
+            t["shards"].append(r.get("shard", 0))
         for s in r.get("samples") or []:
             if len(m["samples"]) < 4:
                 m["samples"].append(s)
@@ -244,6 +245,25 @@ def merge(results):
                 m["notes"].append(nn)
         m["exhaustive"] = m["exhaustive"] and r.get("exhaustive", True)
     return m
+
+
+def rerun_shard(worker, prop, tier, shard, n, scratch, seed, deadline, sig, tag):
+    """Re-run one shard in a fresh process and tell whether it reports the signature again (a violation that depends on
+    state left behind by arbitrarily many earlier executions of its process is only reproducible that way)."""
+    out = os.path.join(scratch, "rerun.%s.%d.json" % (tag, shard))
+    cmd = [worker, "-prop", prop, "-tier", tier, "-shard", str(shard), "-n", str(n), "-out", out,
+           "-replays", os.path.join(scratch, "replays-rerun-" + tag), "-seed", str(seed)]
+    if deadline:
+        cmd += ["-deadline", "%ds" % deadline]
+    env = dict(ENV, GOMAXPROCS="1", MC_SITES=os.path.join(scratch, "sites.json"))
+    r = subprocess.run(cmd, env=env, stdout=subprocess.PIPE, stderr=subprocess.STDOUT, text=True)
+    if r.returncode != 0 or not os.path.exists(out):
+        return False
+    try:
+        res = json.load(open(out))
+    except Exception:
+        return False
+    return any(g["signature"] == sig for g in res.get("violations") or [])
 
 
 def check(prop, tier, nworkers, keep, deadline):
@@ -314,10 +334,24 @@ def check(prop, tier, nworkers, keep, deadline):
             os.makedirs(rdst, exist_ok=True)
             dst = os.path.join(rdst, os.path.basename(rp))
             shutil.copy2(rp, dst)
-            if ok == 5:
+            hist = False
+            if ok < 5 and g.get("shards") and not sig.startswith("fatal crash"):
+                # not reproducible alone (even with the two executions that preceded it): re-run its whole shard, twice,
+                # in fresh processes; the enumeration is deterministic, so process-level state builds up identically
+                sh = g["shards"][0]
+                hist = all(rerun_shard(worker, prop, tier, sh, nworkers, scratch, seed, deadline, sig, "%d%d" % (len(out_lines), i)) for i in range(2))
+                if hist:
+                    import hashlib
+                    rec = {"property": prop, "generator": "shard-rerun", "signature": sig, "tier": tier, "shard": sh, "n": nworkers, "seed": seed,
+                           "what": "this violation depends on state left in the process by earlier executions of its shard (e.g. a package-level cache): "
+                                   "it is reproduced by re-running the shard, not by the single execution. First occurrence: " + g["what"][:1500],
+                           "first_occurrence": json.load(open(rp))}
+                    dst = os.path.join(rdst, "shard-%s.json" % hashlib.sha1((sig + str(sh)).encode()).hexdigest()[:12])
+                    json.dump(rec, open(dst, "w"), indent=1)
+            if ok == 5 or hist:
                 new_v += 1
                 out_lines.append("VIOLATION property=%s replay=%s" % (prop, dst))
-                out_lines.append("  signature: %s (%d executions)\n  what: %s" % (sig, g["count"], g["what"][:600]))
+                out_lines.append("  signature: %s (%d executions)%s\n  what: %s" % (sig, g["count"], " [depends on the history of its process: confirmed by two re-runs of shard %d]" % g["shards"][0] if hist else "", g["what"][:600]))
             else:
                 m["exhaustive"] = False
                 m["caps"].append("violation %r reproduced only %d/5 times from %s: not reported, machinery needs attention" % (sig, ok, dst))
@@ -369,7 +403,7 @@ def check(prop, tier, nworkers, keep, deadline):
             print(ln)
         if shown > 12:
             print("mc: ... %d more violation signatures not shown (all replay files are under %s)" % (shown - 12, rdst))
-        if m["counters"].get("loader_seam_conformance_mismatches"):
+        if m["counters"].get("loader_seam_conformance_mismatches") and not new_v:
             for nn in m["notes"]:
                 sys.stderr.write("mc: " + nn + "\n")
             die("the in-memory document loader does not conform to go-openapi/spec's default loader (harness problem, not a violation)")
@@ -430,7 +464,17 @@ def replay(path):
             return 1 if rp["races"] else 0
         finally:
             shutil.rmtree(scratch, ignore_errors=True)
-    prop = json.load(open(path)).get("property", "")
+    rec = json.load(open(path))
+    prop = rec.get("property", "")
+    if rec.get("generator") == "shard-rerun":
+        scratch = tempfile.mkdtemp(prefix="mc-replay-")
+        try:
+            worker, _ = prepare(scratch, sync=PROPS.get(prop, {}).get("sync", False))
+            again = rerun_shard(worker, prop, rec["tier"], rec["shard"], rec["n"], scratch, rec.get("seed", 0), 0, rec["signature"], "replay")
+            print(("REPRODUCED" if again else "NOT-REPRODUCED") + " property=%s signature=%r (re-run of shard %d of %d)" % (prop, rec["signature"], rec["shard"], rec["n"]))
+            return 1 if again else 0
+        finally:
+            shutil.rmtree(scratch, ignore_errors=True)
     scratch = tempfile.mkdtemp(prefix="mc-replay-")
     try:
         worker, _ = prepare(scratch, sync=PROPS.get(prop, {}).get("sync", False))
